@@ -21,3 +21,8 @@ def check(ctx: Ctx) -> None:
     r_no_shared_lock(ctx, "R18.9")
     # "every line is answered": forwarding the parsed arguments as **kwargs cannot clash with a parameter of the receiving function
     CT.r_dispatch_names(ctx, "R18.10")
+    # "remains usable": the listen loop runs while is_serving() - which must not be switched off by the final callback of an earlier serving cycle
+    from .c19 import r_who_server
+    r_who_server(ctx, "R18.11")
+    # "exactly one reply ... when that wait is over"
+    CT.r_no_timeouts(ctx, "R18.12")
